@@ -19,7 +19,7 @@ func init() {
 		ID:    "C03",
 		Level: "model_checking",
 		Rule: "G1 capture/shadowing: all combinations of {assignment before definition, between definition and call, after the first call} x 12 body shapes (read, :=, +=, derived local, inner closure created before a local reassignment, inner assignment, closure returned and called later, sibling closures sharing a frame, two-variable shadowing, closure over a parameter, nested definition scopes) x wrapper nesting 0..2; " +
-			"G2 binding: parameter lists {0..3 positional} x {0..2 keyword} x every argument list of length <=4 (thorough 5) over {positionals, k:, j:, unknown z:, *[0..2 elements], **{k}, **{j,k}} respecting the grammar, probing parameters and \\ \\N \\0 \\name \\_; " +
+			"G2 binding: parameter lists {0..3 positional} x {0..2 keyword} x every argument list of length <=5 (thorough 6) over {positionals, k:, j:, unknown z:, *[0..2 elements], **{k}, **{j,k}} respecting the grammar, probing parameters and \\ \\N \\0 \\name \\_; " +
 			"G3 receiver passing: function vs method properties x call forms (o.p(x), o['p](o,x), extracted) x anonymous chains in functions, methods and nested literal calls; G4 recursion depth 0..4 with per-frame locals and escaping closures; " +
 			"oracle = independent reference evaluator; non-trivial = program with a closure call after a reassignment, an arity/keyword mismatch or a receiver; distinct = distinct source",
 		Assumptions: []string{
@@ -380,9 +380,9 @@ func judge(c *core.Ctx, t tcase, o panrun.Obs) {
 func gen(thorough bool, emit func(tcase)) {
 	genG1(emit)
 	if thorough {
-		genG2(5, emit)
+		genG2(6, emit)
 	} else {
-		genG2(4, emit)
+		genG2(5, emit)
 	}
 	genG3(emit)
 	genG4(emit)
